@@ -15,6 +15,18 @@ use crate::token::ui_token::{UiTokenType};
 pub fn money_regex_parser(config: &SmartCalcConfig, tokinizer: &mut Tokinizer, group_item: &[Regex]) {
     for re in group_item.iter() {
         for capture in re.captures_iter(&tokinizer.data.to_owned()) {
+            /* The amount starts a lexeme: it is neither the tail of a word or number nor the head of a based literal (0xAF) */
+            let start = capture.get(0).unwrap().start();
+            let text  = &tokinizer.data[..];
+            if text[..start].chars().last().map_or(false, |ch| ch.is_alphanumeric()) {
+                continue;
+            }
+
+            let mut lexeme = text[start..].chars();
+            if lexeme.next() == Some('0') && lexeme.next().map_or(false, |ch| "xXbBoO".contains(ch)) && lexeme.next().map_or(false, |ch| ch.is_ascii_hexdigit()) {
+                continue;
+            }
+
             /* Check price value */
             let price = match capture.name("PRICE").unwrap().as_str().replace(&config.thousand_separator[..], "").replace(&config.decimal_seperator[..], ".").parse::<f64>() {
                 Ok(price) => match capture.name("NOTATION") {
